@@ -368,6 +368,9 @@ func runC07() {
 			cfg := pairCfg{Policy: j.cell.Policy, Mode: j.cell.Mode, Bits: j.cell.Bits, ChunkSize: j.n}
 			evid.Publish("pair " + cfg.String())
 			p, err := openPair(cfg)
+			if _, infra := err.(errInfra); infra {
+				evid.EngineError("C07", "loopback plumbing failed 4 times in a row for %s: %v", cfg, err)
+			}
 			if err != nil {
 				w.Violate(fmt.Sprintf("C07/%s/%s/handshake-failed", cfg.Policy, modeName(cfg.Mode)), fmt.Sprintf("%s: %v", cfg, err), c07Case{Pair: cfg})
 				continue
